@@ -290,6 +290,11 @@ class Tree:
                             continue
                         raise
                     env.log("get-", tag, lab(r), env.env_events - ev0)
+                elif k == "subblock":
+                    # the component enters and leaves a context of its own; afterwards it is again inside its ComponentContext
+                    async with ac.Context():
+                        await anyio.lowlevel.checkpoint()
+                    env.log("subblock", path, phase)
                 elif k == "subget":
                     # a lookup made in a context that the component opens for itself during start-up
                     _, tname, name, tag = st[:4]
